@@ -374,6 +374,12 @@ def check_real(kind, op, n, rep=None, want=None):
     clear_caches()
     b = Builder(params=params)
     e = left_deep(b, terms, ops)
+    from optyx.core.expressions import Expression as _Expr
+
+    if not isinstance(e, _Expr):       # pure-constant accumulations fold to a Python number: not an optyx expression
+        if rep:
+            rep.skipped["folds_to_python_number"] += 1
+        return fails
     V = b.variables_for(names)
     if rep:
         rep.states += 1
@@ -666,6 +672,37 @@ def explore(item, tier, seed):
     return rep
 
 
+def expression_depth(e):
+    """depth of an expression DAG (explicit stack, memo by object identity)"""
+    memo = {}
+    stack = [(e, False)]
+    while stack:
+        node, done = stack.pop()
+        kids = [k for k in (getattr(node, "left", None), getattr(node, "right", None), getattr(node, "operand", None))
+                if k is not None and hasattr(k, "evaluate")]
+        if done:
+            memo[id(node)] = 1 + max((memo.get(id(k), 0) for k in kids), default=0)
+        elif id(node) not in memo:
+            stack.append((node, True))
+            for k in kids:
+                if id(k) not in memo:
+                    stack.append((k, False))
+    return memo[id(e)]
+
+
+def derivative_depth(kind, op, n):
+    """largest depth of the symbolic partial derivatives of the n-term left-deep accumulation"""
+    from optyx.core import autodiff
+
+    K = term_kinds()
+    terms = tuple(K[kind](VARS[i % 3]) for i in range(n))
+    names = sorted(set().union(*[var_names(t) for t in terms[:3]]), key=natural_key)
+    pnames = sorted(set().union(*[param_names(t) for t in terms[:3]]))
+    b = Builder(params={p_: 0.75 for p_ in pnames})
+    e = left_deep(b, terms, (op,) * (n - 1))
+    return max(expression_depth(autodiff.gradient(e, v_)) for v_ in b.variables_for(names))
+
+
 def culprit(v):
     c = v["case"]
     d = v.get("detail", {})
@@ -673,9 +710,19 @@ def culprit(v):
     if c["regime"] == "small":
         return {"kind": v["kind"], "regime": "small", "kinds": c["kinds"], "modules": cfg.get("modules"), "assoc": cfg.get("assoc")}
     if c["regime"] == "real":
+        if v["kind"] in ("RecursionError:compile_gradient", "RecursionError:compile_jacobian"):
+            # identified by its CAUSE, measured on the failing input: the symbolic derivative is deeper than the
+            # recursion limit allows for a closure nested once per level (any other RecursionError stays specific)
+            try:
+                depth = derivative_depth(c["kinds"][0], c["ops"][0], c["n"])
+            except Exception:
+                depth = None
+            limit = sys.getrecursionlimit()
+            if depth is not None and depth >= limit - 150:
+                return {"kind": v["kind"], "regime": "real", "cause": "derivative-expression-depth>=recursion-limit-150"}
+            return {"kind": v["kind"], "regime": "real", "kinds": c["kinds"], "op": c["ops"][0], "n": c["n"], "derivative_depth": depth}
         if v["kind"].startswith("RecursionError:"):
-            # call depth is a function of operator and term count only (the term kind changes it by a constant)
-            return {"kind": v["kind"], "regime": "real", "op": c["ops"][0], "n": c["n"]}
+            return {"kind": v["kind"], "regime": "real", "kinds": c["kinds"], "op": c["ops"][0], "n": c["n"]}
         return {"kind": v["kind"], "regime": "real", "kinds": c["kinds"], "op": c["ops"][0]}
     return {"kind": v["kind"], "regime": "vector", "family": cfg.get("family")}
 
